@@ -256,10 +256,13 @@ impl Property for C03 {
         320
     }
     fn required_counters(&self) -> Vec<&'static str> {
-        vec!["walks", "under_path", "under_glob", "neg_any", "neg_empty", "tree_discarded", "partially_matched_directory", "with_max_depth", "partition_pairs_checked"]
+        vec!["walks", "under_path", "under_glob", "neg_any", "neg_empty", "tree_discarded", "partially_matched_directory", "with_max_depth", "partition_pairs_checked", "negation_matches_directory_link"]
     }
     fn decode(&self, t: &mut Tape) -> Case {
-        let tree = gen_tree(t, &TreeCfg::default());
+        // symbolic links (to files and directories) in a third of the trees: under the default
+        // link behaviour they are leaves, also when a negation discards them "as a tree"
+        let links = t.chance(85);
+        let tree = gen_tree(t, &TreeCfg { links, ..TreeCfg::default() });
         let base = if t.chance(60) { gen_base(t, &tree) } else { Base::Abs };
         let under = if t.chance(130) {
             Under::Path
@@ -470,6 +473,12 @@ impl Property for C03 {
         }
         if tree_discard {
             st.count("tree_discarded");
+        }
+        {
+            let links: Vec<&str> = case.tree.nodes.iter().filter(|n| matches!(&n.kind, Kind::Link(t) if t.is_empty() || case.tree.nodes.iter().any(|m| m.path == *t && m.kind == Kind::Dir))).map(|n| n.path.as_str()).collect();
+            if plain.iter().any(|it| it.rel.as_ref().map_or(false, |r| npat.is_match(r.as_str()) && links.iter().any(|l| r == l || r.ends_with(&format!("/{}", l))))) {
+                st.count("negation_matches_directory_link");
+            }
         }
         if partial {
             st.count("partially_matched_directory");
